@@ -391,6 +391,32 @@ def compiled_scanner_is_frozen(ctx, rule):
             ctx.ob(rule, "compiled-scanner-writer:%s.%s<-%s" % (adt, fld, M.short_name(w)), re.search(rx, w) is not None,
                    "%s writes or mutably borrows %s.%s (allowed: %s)" % (w, adt, fld, why), "")
     ctx.floor(rule, "writers of compiled-scanner fields", n, 8)
+    # the lookahead table keeps its entries after the build: find_from may borrow an entry mutably (the lookahead automaton has
+    # scratch buffers of its own), but nothing on the scan path inserts, removes or clears entries — "take it out, run it, put it
+    # back" loses the entry on every path that forgets the last step, for the rest of the iterator's life
+    mut_rx = r"HashMap::<.*CompiledLookahead.*>::(insert|remove|remove_entry|clear|retain|drain|extend|entry|extract_if|try_insert)$|hash_map::(Occupied|Vacant)?Entry::<.*CompiledLookahead.*>::\w+$|mem::(take|replace|swap)::<.*HashMap<.*CompiledLookahead"
+    allowed_tbl = r"CompiledDfa::(add_lookahead|try_from_pattern|try_from_patterns)$|CompiledDfa as std::convert::From<|internal::minimizer::Minimizer::\w+$"
+    m = 0
+    for fn in sorted(F.fns.values(), key=lambda f: f.name):
+        if fn.j.get("exp"):
+            continue
+        cs = [M.short_name(M.call_name(t)) for bb, t in fn.calls(mut_rx)]
+        if not cs:
+            continue
+        base = fn
+        nm = re.sub(r"(::\{closure#\d+\})+$", "", fn.name)
+        if nm != fn.name:
+            cand = [f_ for f_ in F.fns.values() if f_.name == nm]
+            base = cand[0] if cand else fn
+        names = [base.name]
+        if S.is_unknown_helper(base):
+            bo = helper_is_body_of(F, base)
+            names = sorted({k_.name for k_ in bo}) if bo else sorted({o.name for o, _ in owners(F, base)}) or [base.name]
+        for on in names:
+            m += 1
+            ctx.ob(rule, "lookahead-table-entries-fixed-after-build:%s" % M.short_name(on), re.search(allowed_tbl, on) is not None,
+                   "%s%s changes the set of entries of a lookahead table (%s)" % (M.short_name(fn.name), "" if on == fn.name else " (on behalf of %s)" % M.short_name(on), ", ".join(sorted(set(cs)))), fn.loc())
+    ctx.floor(rule, "functions that fill a lookahead table", m, 1)
 
 
 # ---- field-wise equality / hashing of a hand-written impl (used by C13.a and by the key-type rule C02.n)
